@@ -729,6 +729,14 @@ def argument_mutations(fd, skip=()):
             if excl:
                 continue
             res.append((stmt, val, bc))
+        # inside the body of a loop over this very name: that loop's binding (and re-bindings inside the body) are what reaches
+        for (pu, fu, iu) in reversed(uc):
+            if isinstance(pu, (ast.For, ast.AsyncFor)) and fu == "body" and \
+                    any(isinstance(n_, ast.Name) and n_.id == name for n_ in ast.walk(pu.target)):
+                inner = [(s_, v, bc) for s_, v, bc in res if s_ is pu or any(po is pu for po, _f, _i in bc)]
+                if inner:
+                    return inner, True
+                break
         # unconditional earlier binding in a statement list on the use's chain
         best = None
         for stmt, val, bc in res:
@@ -782,10 +790,10 @@ def argument_mutations(fd, skip=()):
             return out
         if isinstance(e, (ast.ListComp, ast.SetComp, ast.GeneratorExp)):
             env2 = comp_env(e, at, depth, env)
-            return ref_origin(e.elt, at, depth + 1, env2) | elem_origin(e.elt, at, depth + 1, env2)
+            return ref_origin(e.elt, at, depth + 1, env2)  # (one level: the elements themselves, not what they contain)
         if isinstance(e, ast.DictComp):
             env2 = comp_env(e, at, depth, env)
-            return ref_origin(e.value, at, depth + 1, env2) | elem_origin(e.value, at, depth + 1, env2)
+            return ref_origin(e.value, at, depth + 1, env2)
         if isinstance(e, (ast.List, ast.Tuple, ast.Set)):
             out = set()
             for x in e.elts:
@@ -970,7 +978,7 @@ ARG_EFFECTS = {
         "CVR.consistent_sampling": {"contests": {"sample_threshold"}, "cvr_list": {"sampled"}},
         "CVR.make_phantoms": {"contests": {"cards", "cvrs"}},
         "CVR.merge_cvrs": {"cvr_list": {"votes", "phantom", "pool", "tally_pool"}},  # the first record of an id absorbs the later ones
-        "CVR.check_tally_pools": {"cvr_list": {"votes", "phantom", "pool", "tally_pool"}},
+        "CVR.check_tally_pools": {"cvr_list": {"votes", "phantom", "pool"}},
         "CVR.prep_comparison_sample": {"cvr_sample": {"sort()"}, "mvr_sample": {"sort()"}},
         "CVR.prep_polling_sample": {"mvr_sample": {"sort()"}},
         "CVR.set_card_in_batch_lex": {"cvr_list": {"card_in_batch"}},
